@@ -239,4 +239,38 @@ theorem topicPumpLoop_eq : Nsq.Gen.Chan.topicPumpLoop = ([
   "assign chans = chans[:0]",
   "assign chans = append(chans, c)"] : List String) := by decide
 
+/-- C02.7 (micro-step model `ChanMicro`): TOUCH is four critical sections in this order — map pop (the decision), heap removal, map push with the new deadline, heap push (`ansMapPop` | `ansFinish` | `touchMapPush` | `heapPush`). -/
+theorem touchMessage_eq : Nsq.Gen.Chan.touchMessage = ([
+  "assign msg, err := c.popInFlightMessage(clientID, id)",
+  "do c.removeFromInFlightPQ(msg)",
+  "assign msg.pri = newTimeout.UnixNano()",
+  "assign err = c.pushInFlightMessage(msg)",
+  "do c.addToInFlightPQ(msg)"] : List String) := by decide
+
+/-- C02.7: `removeFromInFlightPQ` is one critical section that removes the object only if it is in the heap at its recorded index (model: `heap.erase id` is a no-op when the entry is gone — a late answer in the delivery window, or after the scan popped it). -/
+theorem heapRemoveGuard_eq : Nsq.Gen.Chan.heapRemoveGuard = ([
+  "do c.inFlightMutex.Lock()",
+  "if msg.index < 0 || msg.index >= len(c.inFlightPQ) || c.inFlightPQ[msg.index] != msg",
+  "do c.inFlightMutex.Unlock()",
+  "do c.inFlightPQ.Remove(msg.index)",
+  "do c.inFlightMutex.Unlock()"] : List String) := by decide
+
+/-- C02.7: `popInFlightMessage` is one critical section: lookup by id, owner test on the object's `clientID`, delete — the map step that decides the race (model: `ansMapPop`, `scanMapPop`). -/
+theorem popInFlight_eq : Nsq.Gen.Chan.popInFlight = ([
+  "do c.inFlightMutex.Lock()",
+  "assign msg, ok := c.inFlightMessages[id]",
+  "do c.inFlightMutex.Unlock()",
+  "if msg.clientID != clientID",
+  "do c.inFlightMutex.Unlock()",
+  "do delete(c.inFlightMessages, id)",
+  "do c.inFlightMutex.Unlock()"] : List String) := by decide
+
+/-- C02.7: `pushInFlightMessage` is one critical section: refuse when the id is present, else insert (model: `delMapPush`, `touchMapPush`; the refusal is proved unreachable, `never_already_in_flight`). -/
+theorem pushInFlight_eq : Nsq.Gen.Chan.pushInFlight = ([
+  "do c.inFlightMutex.Lock()",
+  "assign _, ok := c.inFlightMessages[msg.ID]",
+  "do c.inFlightMutex.Unlock()",
+  "assign c.inFlightMessages[msg.ID] = msg",
+  "do c.inFlightMutex.Unlock()"] : List String) := by decide
+
 end Nsq.Tie.Chan
